@@ -66,6 +66,7 @@ class Profile:
         distinct_cjmp_targets=False,
         obs_type=None,
         indirect_boost=0,
+        observe_pct=0,
         forbidden=(),
     ):
         self.__dict__.update(locals())
@@ -358,6 +359,13 @@ class _FuncGen:
             nins = 0 if (b > 0 and self.chance(22)) else draw(st.integers(0, prof.max_ins))
             for _ in range(nins):
                 self.gen_instruction(pool, out, define)
+            if prof.observe and prof.observe_pct:
+                # fold (a percentage of) ALL values defined in this block into the accumulator: without it most
+                # generated values are dead and a wrong result of a single instruction is rarely observable
+                for oty, names in list(mine.items()):
+                    for nm in list(names):
+                        if self.chance(prof.observe_pct):
+                            self.observe(nm, oty, pool, out)
             if prof.observe and nins and self.chance(45):
                 oty = self.pick(self.types)
                 if mine.get(oty):
@@ -700,7 +708,12 @@ class _FuncGen:
         x = v
         if ty != acc_ty:
             if not self.prof.allowed("cast", ty, acc_ty):
-                return
+                # consumers that chose the accumulator type (obs_type) get a two-step widening through i32
+                if not (self.prof.obs_type and ty != "i32" and "i32" in ints and self.prof.allowed("cast", ty, "i32") and self.prof.allowed("cast", "i32", acc_ty)):
+                    return
+                x = self.fresh("ob")
+                out.append(["cast", x, "i32", v])
+                v = x
             x = self.fresh("ob")
             out.append(["cast", x, acc_ty, v])
         old = self.fresh("ob")
